@@ -47,8 +47,8 @@ def run(ctx):
         import os
         ctx.mc(W.SPEC_DIR, "Cookies", os.path.relpath(W.cfg_with(ctx, "MC_Cookies.cfg", {"ValueSet": "Values3"}), W.SPEC_DIR),
                required_actions=["SetValue", "Flush"])
-    paths = ctx.gen_paths("websec", "Gen_Cookies", "Gen_Cookies.cfg")
-    paths += ctx.gen_paths("websec", "Gen_Cookies", "Gen_Cookies_2.cfg")
+    paths = ctx.gen_paths("websec", "Gen_Cookies", "Gen_Cookies.cfg", timeout=ctx.pick(900, 1500))
+    paths += ctx.gen_paths("websec", "Gen_Cookies", "Gen_Cookies_2.cfg", timeout=ctx.pick(900, 1500))
     progs = [p for e, p in paths if p and p[-1]["act"] == "flush"]
     t0 = time.time()
     traces = framework.pool_map(C.trace_of_path, [(i + 1, p) for i, p in enumerate(progs)])
